@@ -62,6 +62,7 @@ def run_case(ctx, idx, rng, tier):
     mon = RenderMonitor(ctx)
     r = prog.Runner(ctx, dev, reg, [mon])
     g = gen.ProgGen(rng, dev, reg, r.chspecs, weights=WEIGHTS)
+    g.motifs["eom-at-zero"] = 0.5
     n = rng.randint(6, 34)
     for i in range(n):
         op = g.next_op()
